@@ -51,7 +51,9 @@ def _entry_points():
     from clikit.api.io.output import Output
     from clikit.api.io.section_output import SectionOutput
     eps = []
-    for cls, kinds in ((IO, ["io"]), (Output, ["output", "error_output"]), (SectionOutput, ["section"])):
+    # "section2": the written section is the NEWER of two sections of one output and an OLDER one is written
+    # to afterwards (a redraw re-emits recorded content: gated text must not have been recorded)
+    for cls, kinds in ((IO, ["io"]), (Output, ["output", "error_output"]), (SectionOutput, ["section", "section2"])):
         for name, fn in inspect.getmembers(cls, predicate=inspect.isfunction):
             if name.startswith("_"):
                 continue
@@ -100,6 +102,7 @@ def run_impl(case):
         target.set_verbosity(case["verbosity"])
         fetch = io.fetch_output if kind == "output" else io.fetch_error
     else:
+        older = io.output.section() if kind == "section2" else None
         target = io.output.section()
         target.set_quiet(case["quiet"])
         target.set_verbosity(case["verbosity"])
@@ -111,6 +114,11 @@ def run_impl(case):
     else:
         fn("payload")
     out = fetch()
+    if kind == "section2":
+        # anything that reaches the stream later counts as well
+        older.write_line("later")
+        out += fetch()
+        return {"wrote": "payload" in out, "contains_payload": "payload" in out}
     return {"wrote": bool(out), "contains_payload": "payload" in out}
 
 
